@@ -37,8 +37,11 @@ def _attr_snapshot(obj, skip=()):
     snap = {}
     try:
         items = list(vars(obj).items())
-    except TypeError:                       # jitted replay: a jitclass instance has no __dict__ (its arrays are checked directly)
-        items = []
+    except TypeError:                       # jitted replay: a jitclass instance exposes its fields through its numba type
+        try:
+            items = [(k, getattr(obj, k)) for k in obj._numba_type_.struct.keys()]
+        except Exception:
+            items = []
     for k, v in items:
         if k in skip or k.startswith('_'):
             continue
